@@ -28,10 +28,12 @@ struct Sock {
     script: Mutex<Vec<Vec<u8>>>,
 }
 
+/// the flag is cleared FIRST and only then the harness starts counting receives "after the clear": a receive that
+/// starts between the two stores is not counted (the count may undercount, never overcount)
 fn do_clear(sh: &Shared, h: &AtomicBool) {
     *sh.cleared_at.lock().unwrap() = Some(Instant::now());
-    sh.cleared.store(true, Ordering::SeqCst);
     h.store(false, Ordering::SeqCst);
+    sh.cleared.store(true, Ordering::SeqCst);
 }
 
 impl Ipc for Sock {
@@ -205,19 +207,19 @@ fn stop_inner(args: &[&str]) -> String {
         match point {
             "pre" if handle == "internal" => {
                 *sh.cleared_at.lock().unwrap() = Some(Instant::now());
-                sh.cleared.store(true, Ordering::SeqCst);
                 h.kill();
+                sh.cleared.store(true, Ordering::SeqCst);
             }
             "mid" | "blocked" | "flood" => {
                 std::thread::sleep(Duration::from_millis(if point == "mid" { 5 + k as u64 } else { 150 }));
                 if !sh.cleared.load(Ordering::SeqCst) {
                     *sh.cleared_at.lock().unwrap() = Some(Instant::now());
-                    sh.cleared.store(true, Ordering::SeqCst);
                     if handle == "internal" {
                         h.kill();
                     } else {
                         stop_arc.store(false, Ordering::SeqCst);
                     }
+                    sh.cleared.store(true, Ordering::SeqCst);
                 }
             }
             _ => {}
